@@ -1369,6 +1369,26 @@ def replace_chain(S, fn, depth=0):
             chain.append(e["args"][0]["lit"]["v"])
     if chain:
         return list(reversed(chain))   # walk is outermost-first
+    # the same chain kept as rows of a constant table and applied in table order by a fold / loop: `TABLE.iter().fold(s, |acc, (c, r)| acc.replace(*c, r))`
+    table_applied = any(e.get("k") == "mcall" and e["method"] == "replace" and len(e["args"]) == 2 and e["args"][0].get("k") != "lit" for e in walk_block(fn.body))
+    if table_applied:
+        for e in walk_block(fn.body):
+            if e.get("k") == "path" and e["segs"][-1] in S.consts:
+                ce = S.consts[e["segs"][-1]].get("expr")
+                while isinstance(ce, dict) and ce.get("k") in ("ref", "paren"):
+                    ce = ce["expr"]
+                if isinstance(ce, dict) and ce.get("k") == "array":
+                    rows = []
+                    for row in ce["elems"]:
+                        if row.get("k") == "tuple" and len(row["elems"]) == 2 and row["elems"][0].get("k") == "lit" and row["elems"][0]["lit"]["t"] in ("char", "str") \
+                                and lit_str(row["elems"][1]) is not None and lit_str(row["elems"][1]).startswith("\\"):
+                            rows.append(row["elems"][0]["lit"]["v"])
+                        else:
+                            rows = None
+                            break
+                    reversing = any(x.get("k") == "mcall" and x["method"] == "rev" for x in walk_block(fn.body))
+                    if rows and not reversing:
+                        return rows
     if depth < 2:
         for e in walk_block(fn.body):
             if e.get("k") == "call" and e["func"].get("k") == "path":
@@ -1448,6 +1468,18 @@ def registered_filters(S):
                 g = [x for x in S.fns if x.name == nm and x.body is not None]
                 if g:
                     out[lit_str(e["args"][0])] = g[0]
+    # the same registrations kept as rows of a constant table that a loop hands to register_filter: `("escape_js", escape_js_filter)`
+    loops = any(e.get("k") == "mcall" and e["method"] == "register_filter" and len(e["args"]) == 2 and lit_str(e["args"][0]) is None
+                for f in S.fns if f.body is not None for e in walk_block(f.body))
+    if loops:
+        for cname, c in S.consts.items():
+            ce = c.get("expr") if isinstance(c, dict) else None
+            for x in (walk(ce) if isinstance(ce, dict) else []):
+                if x.get("k") == "tuple" and len(x.get("elems", [])) == 2 and lit_str(x["elems"][0]) is not None and x["elems"][1].get("k") == "path":
+                    nm = x["elems"][1]["segs"][-1]
+                    g = [y for y in S.fns if y.name == nm and y.body is not None]
+                    if g and nm.endswith("filter"):
+                        out.setdefault(lit_str(x["elems"][0]), g[0])
     return out
 
 
